@@ -91,7 +91,13 @@ def generate_subgraphs(graph: IterationNode) -> list[IterationNode]:
             all_subgraphs.update(new_graphs)
             old_subgraphs = new_graphs
 
-    return list(all_subgraphs.values())
+    # Zeroing one tensor can remove several sparse leaves at once, so a graph found early can have
+    # fewer remaining sparse leaves than a graph found later. Every graph must be emitted before
+    # the graphs that can be derived from it (in particular, the graph with no sparse leaves must
+    # come last), so order by the number of remaining sparse leaves; the sort is stable.
+    return sorted(
+        all_subgraphs.values(), key=lambda subgraph: -len(subgraph.compressed_dimensions())
+    )
 
 
 @to_ir_iteration_graph.register(IterationNode)
